@@ -1254,7 +1254,9 @@ func valuesEqual(a, b vm.Value) bool {
 		}
 	case vm.FloatValue:
 		if bv, ok := b.(vm.FloatValue); ok {
-			return av.Val == bv.Val
+			// Constant-pool identity, not numeric equality: 0.0 and -0.0
+			// compare equal but are different constants.
+			return math.Float64bits(av.Val) == math.Float64bits(bv.Val)
 		}
 	case vm.BoolValue:
 		if bv, ok := b.(vm.BoolValue); ok {
